@@ -263,6 +263,77 @@ def _same_loop(cfg, nid: int, head: int) -> bool:
     return owner is not None and a is not None and any(x is a for b in owner.body for x in ast.walk(b))
 
 
+def check_single_write(ctx: Ctx, oid: str) -> None:
+    """C08.b (also C02.i): a frame is written with one io.write carrying header + payload"""
+    repo = ctx.repo
+    f_to = repo.func(f"{GB}.Message.to_io")
+    f_init = repo.func(f"{GB}.Message.__init__")
+    fields = [p for p in f_init.params() if p != "self"]
+    with ctx.obligation(oid, "single-write") as ob:
+        cfg = build_cfg(repo, f_to, Oracle(repo, f_to, precise=True))
+        n = 0
+        for path in cfg.paths(cfg.entry.id):
+            if path[-1][0] != cfg.exit.id:
+                continue
+            n += 1
+            ws = [c for nid, _ in path for c in (calls_in_node(cfg.nodes[nid]) if cfg.nodes[nid].ast is not None else []) if callee_attr(c) == "write"]
+            ob.site(f_to, ws[0] if ws else f_to.node, "one io.write per frame with header + payload", writes=len(ws))
+            if len(ws) != 1:
+                ob.violation(f_to, f_to.node, f"a frame is written with {len(ws)} write calls: concurrent senders could interleave header and payload", construct=f"{len(ws)} writes")
+                continue
+            from ..util import expand
+            a = expand(repo, f_to, ws[0].args[0]) if ws[0].args else None
+            ok = isinstance(a, ast.BinOp) and isinstance(a.op, ast.Add) and isinstance(a.left, ast.Call) and (
+                unparse(a.left.func) == "struct.pack" or (repo.struct_binding(a.left.func, f_to) or ("", ""))[1] == "pack") and unparse(a.right) == f"self.{fields[2]}"
+            if not ok:
+                ob.violation(f_to, ws[0], f"the single write does not carry header followed by payload (`{norm(a) if a is not None else ''}`)")
+        ob.require(n >= 1, "no path through to_io")
+
+
+
+def check_atomic_write(ctx: Ctx, oid: str) -> None:
+    """C08.d (also C02.j): every IO.write is atomic w.r.t. concurrent senders"""
+    repo = ctx.repo
+    with ctx.obligation(oid, "atomic-write") as ob:
+        fsend = repo.func(f"{GB}.BaseGateway._send")
+        send_locked = False
+        for c in repo.calls_in(fsend):
+            if callee_attr(c) == "to_io" and lexical_locks(repo, fsend, c):
+                send_locked = True
+        ob.note(f"_send holds a lock around to_io: {send_locked}")
+        writers = [c for c in repo.io_implementors("IO")]
+        for cname in writers:
+            ci = repo.cls(cname)
+            if "write" not in ci.methods:
+                continue  # inherited
+            fi = ci.methods["write"]
+            prim = [c for c in repo.calls_in(fi) if callee_attr(c) in ("_write", "write", "sendall", "send", "sendmsg") and not unparse(c.func).startswith("sys.")]
+            mode = None
+            if send_locked:
+                mode = "serialised by _send"
+            elif len(prim) == 1 and callee_attr(prim[0]) == "send" and repo.type_of(prim[0].func.value, fi) == "Channel":
+                mode = "delegates to Channel.send (atomicity of the via-gateway's transport)"
+            elif len(prim) == 1 and callee_attr(prim[0]) in ("_write", "write"):
+                others = [c for c in repo.calls_in(fi) if c is not prim[0] and callee_attr(c) not in ("flush", "isinstance")]
+                if not others and unparse(prim[0].args[0]) in fi.params():
+                    mode = "single buffered write of the whole frame, then flush"
+            elif prim and all(callee_attr(c) in ("sendall", "send") for c in prim):
+                held = [lexical_locks(repo, fi, c) for c in prim]
+                if all(h for h in held) and len(set.intersection(*held)) >= 1:
+                    lock = sorted(set.intersection(*held))[0]
+                    # the lock must be per-connection state created in __init__
+                    mode = f"all socket sends inside the lock region {lock}"
+                    if callee_attr(prim[0]) == "send":
+                        mode = None  # sock.send may write partially
+            ob.site(fi, prim[0] if prim else fi.node, f"{cname}.write atomic w.r.t. concurrent senders", mode=mode)
+            if mode is None:
+                ob.violation(fi, prim[0] if prim else fi.node,
+                             f"{cname}.write is not atomic and BaseGateway._send takes no lock: frames of concurrently sending threads can interleave on the wire "
+                             "(sock.sendall of a large frame is many send() calls)")
+        ob.require(len(ob.sites) >= 3, "3 IO.write implementors expected")
+
+
+
 def check(ctx: Ctx) -> None:
     repo = ctx.repo
     ctx.decides = ("header format and field roles agree between Message.to_io and from_io; one write per frame containing header "
@@ -330,25 +401,7 @@ def check(ctx: Ctx) -> None:
         if not eof:
             ob.violation(f_from, f_from.node, "an empty header read does not raise EOFError", construct="no empty-header EOF")
 
-    with ctx.obligation("C08.b", "single-write") as ob:
-        cfg = build_cfg(repo, f_to, Oracle(repo, f_to, precise=True))
-        n = 0
-        for path in cfg.paths(cfg.entry.id):
-            if path[-1][0] != cfg.exit.id:
-                continue
-            n += 1
-            ws = [c for nid, _ in path for c in (calls_in_node(cfg.nodes[nid]) if cfg.nodes[nid].ast is not None else []) if callee_attr(c) == "write"]
-            ob.site(f_to, ws[0] if ws else f_to.node, "one io.write per frame with header + payload", writes=len(ws))
-            if len(ws) != 1:
-                ob.violation(f_to, f_to.node, f"a frame is written with {len(ws)} write calls: concurrent senders could interleave header and payload", construct=f"{len(ws)} writes")
-                continue
-            from ..util import expand
-            a = expand(repo, f_to, ws[0].args[0]) if ws[0].args else None
-            ok = isinstance(a, ast.BinOp) and isinstance(a.op, ast.Add) and isinstance(a.left, ast.Call) and (
-                unparse(a.left.func) == "struct.pack" or (repo.struct_binding(a.left.func, f_to) or ("", ""))[1] == "pack") and unparse(a.right) == f"self.{fields[2]}"
-            if not ok:
-                ob.violation(f_to, ws[0], f"the single write does not carry header followed by payload (`{norm(a) if a is not None else ''}`)")
-        ob.require(n >= 1, "no path through to_io")
+    check_single_write(ctx, "C08.b")
 
     with ctx.obligation("C08.c", "exact-read") as ob:
         impl = [c for c in repo.io_implementors("IO") if "read" in repo.cls(c).methods]
@@ -364,43 +417,7 @@ def check(ctx: Ctx) -> None:
             check_exact_read(repo, ob, fi)
         ob.require(len(ob.sites) >= 3, f"{len(ob.sites)} IO.read implementors analysed (floor 3)")
 
-    with ctx.obligation("C08.d", "atomic-write") as ob:
-        fsend = repo.func(f"{GB}.BaseGateway._send")
-        send_locked = False
-        for c in repo.calls_in(fsend):
-            if callee_attr(c) == "to_io" and lexical_locks(repo, fsend, c):
-                send_locked = True
-        ob.note(f"_send holds a lock around to_io: {send_locked}")
-        writers = [c for c in repo.io_implementors("IO")]
-        for cname in writers:
-            ci = repo.cls(cname)
-            if "write" not in ci.methods:
-                continue  # inherited
-            fi = ci.methods["write"]
-            prim = [c for c in repo.calls_in(fi) if callee_attr(c) in ("_write", "write", "sendall", "send", "sendmsg") and not unparse(c.func).startswith("sys.")]
-            mode = None
-            if send_locked:
-                mode = "serialised by _send"
-            elif len(prim) == 1 and callee_attr(prim[0]) == "send" and repo.type_of(prim[0].func.value, fi) == "Channel":
-                mode = "delegates to Channel.send (atomicity of the via-gateway's transport)"
-            elif len(prim) == 1 and callee_attr(prim[0]) in ("_write", "write"):
-                others = [c for c in repo.calls_in(fi) if c is not prim[0] and callee_attr(c) not in ("flush", "isinstance")]
-                if not others and unparse(prim[0].args[0]) in fi.params():
-                    mode = "single buffered write of the whole frame, then flush"
-            elif prim and all(callee_attr(c) in ("sendall", "send") for c in prim):
-                held = [lexical_locks(repo, fi, c) for c in prim]
-                if all(h for h in held) and len(set.intersection(*held)) >= 1:
-                    lock = sorted(set.intersection(*held))[0]
-                    # the lock must be per-connection state created in __init__
-                    mode = f"all socket sends inside the lock region {lock}"
-                    if callee_attr(prim[0]) == "send":
-                        mode = None  # sock.send may write partially
-            ob.site(fi, prim[0] if prim else fi.node, f"{cname}.write atomic w.r.t. concurrent senders", mode=mode)
-            if mode is None:
-                ob.violation(fi, prim[0] if prim else fi.node,
-                             f"{cname}.write is not atomic and BaseGateway._send takes no lock: frames of concurrently sending threads can interleave on the wire "
-                             "(sock.sendall of a large frame is many send() calls)")
-        ob.require(len(ob.sites) >= 3, "3 IO.write implementors expected")
+    check_atomic_write(ctx, "C08.d")
 
     with ctx.obligation("C08.e", "reframe-identity") as ob:
         fsp = repo.func("gateway_io.serve_proxy_io")
